@@ -16,7 +16,7 @@ pub fn from_json_named_struct(ast: DeriveInput, r#struct: &DataStruct) -> TokenS
     let names: Vec<String> = fields
         .iter()
         .map(|field| {
-            if field.attrs.is_empty() {
+            if !field.attrs.iter().any(|attr| attr.path.is_ident("rename")) {
                 field.ident.as_ref().unwrap().to_string()
             } else {
                 let attr = field
@@ -67,7 +67,7 @@ pub fn into_json_named_struct(ast: DeriveInput, r#struct: &DataStruct) -> TokenS
     let names: Vec<String> = fields
         .iter()
         .map(|field| {
-            if field.attrs.is_empty() {
+            if !field.attrs.iter().any(|attr| attr.path.is_ident("rename")) {
                 field.ident.as_ref().unwrap().to_string()
             } else {
                 let attr = field
